@@ -129,6 +129,10 @@ def norm(ct, v):
 # ------------------------------------------------------------------------------ LLVM
 
 
+class Malformed(Exception):
+    """The LLVM function is not well formed (a module the LLVM verifier rejects)."""
+
+
 def ll_meaning(fn, env: trees.Env, param_names):
     """Meaning of a loop-free LLVM function (short-circuit diamonds) by guarded evaluation of
     its CFG in topological order.  Returns (type, value, safe, accesses)."""
@@ -297,6 +301,10 @@ def ll_meaning(fn, env: trees.Env, param_names):
             if op == "phi":
                 ty, ops = rest.split(" ", 1)
                 choice = None
+                incoming = [re.match(r'\[\s*(\S+)\s*,\s*%"?([^"\]\s]+)"?\s*\]', part).group(2) for part in split_top(ops)]
+                if sorted(incoming) != sorted(preds[lab]):
+                    # LLVM well-formedness: one entry per predecessor block, no others (the verifier rejects the module)
+                    raise Malformed(f"phi entries {incoming} do not match the predecessors {sorted(preds[lab])} of block {lab}")
                 for part in reversed(split_top(ops)):
                     mm = re.match(r'\[\s*(\S+)\s*,\s*%"?([^"\]\s]+)"?\s*\]', part)
                     v = val(ty, mm.group(1))
